@@ -1,5 +1,6 @@
 ; FFV0 colour encodings, transcribed from spec/iconvg-spec-v0.md, section "Colors".
 ; include: base
+; provides: colors
 ; requires-types: image/color.RGBA ivg.Color
 ; An ivg.Color is (typ, data): typ 0 = direct RGBA, 1 = custom-palette index, 2 = CREG index, 3 = blend;
 ; for the indirect kinds the index / blend operands live in data.R (,G,B) and the remaining fields are zero.
